@@ -1326,10 +1326,15 @@ def _r21l(chk, repo) -> None:
             elif isinstance(n, ast.AugAssign) and isinstance(n.target, ast.Name) and isinstance(n.op, ast.BitOr):
                 uses.append((n.target, n, "is changed in place (|=)"))
         chk.count("R21l.dict_uses", len(uses))
+        splatted = {nm.id for nm, _, what in uses if what.startswith("is splatted")}
         for nm, node, what in uses:
             at = cfg.stmt_of(node)
             os_ = origins(cfg, nm, at) if isinstance(nm.ctx, ast.Load) else origins(cfg, ast.copy_location(ast.Name(id=nm.id, ctx=ast.Load()), nm), at)
             bad = [o for o in os_ if not (o.kind == "expr" and not o.path and isinstance(o.expr, ast.AST) and fresh(o.expr) and o.stmt is not None and id(o.stmt) in inside)]
+            if nm.id not in splatted:
+                # an accumulator of get_rulepack's own (created in the function, never handed to a rule) may
+                # live across iterations; only objects that come from elsewhere must not be written to
+                bad = [o for o in bad if not (o.kind == "expr" and not o.path and isinstance(o.expr, ast.AST) and (fresh(o.expr) or isinstance(o.expr, (ast.List, ast.Set, ast.ListComp, ast.SetComp)) or (isinstance(o.expr, ast.Call) and call_name(o.expr) in ("set", "list", "defaultdict", "collections.defaultdict"))))]
             chk.require(
                 bool(os_) and not bad, "R21l", node,
                 f"in get_rulepack's loop over the selected rules `{nm.id}` {what} but is not a dict created inside the iteration (it is "
@@ -1463,6 +1468,12 @@ ST05 = "src/sqlfluff/rules/structure/ST05.py"
 ST06 = "src/sqlfluff/rules/structure/ST06.py"
 
 VARIANTS: List[Variant] = [
+    Variant(
+        "quiet-r21l-accumulator-across-iterations", "src/sqlfluff/core/rules/base.py",
+        "        for code in keylist:\n            kwargs = {}\n",
+        "        seen_refs: dict = {}\n        for code in keylist:\n            seen_refs[code] = True\n            kwargs = {}\n",
+        "QUIET", None, "R21l: a bookkeeping dict of get_rulepack's own lives across iterations",
+    ),
     Variant(
         "r21l-kwargs-alias-generic-config", "src/sqlfluff/core/rules/base.py",
         "            kwargs = {}\n            rule_class = self._register[code].rule_class\n",
